@@ -25,6 +25,7 @@ type Oblig struct {
 	PC      *Term
 	Goal    *Term
 	Cover   bool
+	Budget  int // seconds; 0 = default. Obligations matching an OPEN known finding get one short attempt: anything but unsat means "still failing"
 	Extra   []*Term // extra assumptions (local)
 	vc      *VC
 	Res     *SolveResult
